@@ -129,15 +129,20 @@ static void check_factor_step(hist_t *h, const char *op, int_t info, int usepr, 
            between an entry as the library computed it and the reference value.  (The opposite direction - an old pivot that fails
            the threshold must not be kept - is decided on the returned factors themselves by check_pivot_policy: multipliers <= 1/u.) */
         zq *A = hx_calloc((size_t)n * n + 1, sizeof(zq)); ld *E = hx_calloc((size_t)n * n + 1, sizeof(ld));
-        for (int j = 0; j < n; ++j) for (long p = F.ptr[j]; p < F.ptr[j + 1]; ++p) { size_t q = (size_t)h->perm_c[j] * n + perm_r_in[F.ind[p]]; A[q] = zq_add(A[q], F.val[p]); E[q] += zq_abs(F.val[p]); }
-        int all_pass = 1; ld ce = 8 * (ld)n * (ld)vt->eps * (vt->is_complex ? 4 : 1);
+        for (int j = 0; j < n; ++j) for (long p = F.ptr[j]; p < F.ptr[j + 1]; ++p) { size_t q = (size_t)h->perm_c[j] * n + perm_r_in[F.ind[p]]; A[q] = zq_add(A[q], F.val[p]); }
+        /* running error bound (first order, with a safety factor): E[q] bounds the distance between the entry as a working-precision
+           elimination in this order computes it and the reference value; errors of the multipliers (divided by the pivot) and of
+           the U entries are propagated, so small pivots amplify it as they do in the library */
+        int all_pass = 1; ld we = (ld)vt->eps * (vt->is_complex ? 4 : 1);
         for (int k = 0; k < n && all_pass; ++k) {
-            ld pm = 0, pme = 0; for (int i = k; i < n; ++i) { zq a = A[(size_t)k * n + i]; ld m = vt->is_complex ? zq_abs1(a) : fabsl(a.re); ld e = ce * E[(size_t)k * n + i] * (vt->is_complex ? 2 : 1); if (m + e > pm + pme) { pm = m; pme = e; } }
-            zq pk = A[(size_t)k * n + k]; ld mk = vt->is_complex ? zq_abs1(pk) : fabsl(pk.re); ld ek = ce * E[(size_t)k * n + k] * (vt->is_complex ? 2 : 1);
+            ld pm = 0, pme = 0; for (int i = k; i < n; ++i) { zq a = A[(size_t)k * n + i]; ld m = vt->is_complex ? zq_abs1(a) : fabsl(a.re); ld e = 4 * E[(size_t)k * n + i] * (vt->is_complex ? 2 : 1); if (m + e > pm + pme) { pm = m; pme = e; } }
+            zq pk = A[(size_t)k * n + k]; ld mk = vt->is_complex ? zq_abs1(pk) : fabsl(pk.re); ld ek = 4 * E[(size_t)k * n + k] * (vt->is_complex ? 2 : 1);
             if (mk == 0 || !(mk - ek > h->u * (pm + pme) * (1 + 1e-6L))) { all_pass = 0; break; }
-            for (int i = k + 1; i < n; ++i) { zq *l = &A[(size_t)k * n + i]; if (l->re == 0 && l->im == 0) continue; *l = zq_div(*l, pk); }
-            for (int j = k + 1; j < n; ++j) { zq ukj = A[(size_t)j * n + k]; if (ukj.re == 0 && ukj.im == 0) continue;
-                for (int i = k + 1; i < n; ++i) { zq l = A[(size_t)k * n + i]; if (l.re == 0 && l.im == 0) continue; size_t q = (size_t)j * n + i; A[q] = zq_sub(A[q], zq_mul(l, ukj)); E[q] += zq_abs(l) * zq_abs(ukj); } }
+            ld pa = zq_abs(pk), ep = E[(size_t)k * n + k];
+            for (int i = k + 1; i < n; ++i) { size_t q = (size_t)k * n + i; zq *l = &A[q]; if (l->re == 0 && l->im == 0 && E[q] == 0) continue; *l = zq_div(*l, pk); ld la = zq_abs(*l); E[q] = (E[q] + la * ep) / pa + we * la; }
+            for (int j = k + 1; j < n; ++j) { zq ukj = A[(size_t)j * n + k]; ld ua = zq_abs(ukj), eu = E[(size_t)j * n + k]; if (ua == 0 && eu == 0) continue;
+                for (int i = k + 1; i < n; ++i) { zq l = A[(size_t)k * n + i]; ld la = zq_abs(l), el = E[(size_t)k * n + i]; if (la == 0 && el == 0) continue; size_t q = (size_t)j * n + i;
+                    A[q] = zq_sub(A[q], zq_mul(l, ukj)); E[q] += la * eu + ua * el + el * eu + we * (la * ua + zq_abs(A[q])); } }
         }
         hx_free(A); hx_free(E);
         int same = !memcmp(perm_r_in, h->perm_r, sizeof(int_t) * n);
